@@ -938,7 +938,12 @@ theorem leave_reach (ctx : Scope) (C : List Instr) : ∀ (sc : List ScopeKind) (
     | nil => rw [ho] at hc; simp at hc
     | cons o os =>
       let s1 : VmState := { s with pc := s.pc + 1, outs := os, stack := .str o :: s.stack }
-      have r1 : Reach ctx C s s1 := Reach.one (i := .endCapture) hAt.head (by simp [MJ.Vm.step, s1, ho])
+      have hos : ∃ o2 os2, os = o2 :: os2 := by
+        cases os with
+        | nil => rw [ho] at hc; simp at hc
+        | cons o2 os2 => exact ⟨o2, os2, rfl⟩
+      obtain ⟨o2, os2, hos⟩ := hos
+      have r1 : Reach ctx C s s1 := Reach.one (i := .endCapture) hAt.head (by simp [MJ.Vm.step, s1, ho, hos])
       let s2 : VmState := { s with pc := s.pc + 2, outs := os }
       have r2 : Reach ctx C s1 s2 :=
         Reach.one' (i := .discardTop) _ hAt.tail.head (by simp [s1]) (by simp [MJ.Vm.step, s1, s2])
@@ -1462,7 +1467,8 @@ theorem sim_stmt_step {n} (ihB : SimBlock n) (ihW : SimBinds n) (ihI : SimIters 
         have hreach3 : Reach ctx C s2 s3 :=
           Reach.one' (i := .endCapture) _ hAt.left.left.right.head
             (by simp only [hpc2, List.length_append, List.length_cons, List.length_nil]; omega)
-            (by simp [MJ.Vm.step, hr2, s3, pB, hpc2, hst2, s1])
+            (by obtain ⟨rest0, hr0⟩ := hrel.out
+                simp [MJ.Vm.step, hr2, hr0, s3, pB, hpc2, hst2, s1])
         split at hev
         · simp at hev
         · rename_i v hv
@@ -1550,7 +1556,8 @@ theorem sim_stmt_step {n} (ihB : SimBlock n) (ihW : SimBinds n) (ihI : SimIters 
         have hreach3 : Reach ctx C s2 s3 :=
           Reach.one' (i := .endCapture) _ hAt.left.left.right.head
             (by simp only [hpc2, List.length_append, List.length_cons, List.length_nil]; omega)
-            (by simp [MJ.Vm.step, hr2, s3, pB, hpc2, hst2, s1])
+            (by obtain ⟨rest0, hr0⟩ := hrel.out
+                simp [MJ.Vm.step, hr2, hr0, s3, pB, hpc2, hst2, s1])
         split at hev
         · simp at hev
         · rename_i v hv
